@@ -5,6 +5,8 @@ package main
 
 import (
 	"fmt"
+	"net/http"
+	"net/http/httptest"
 	"os"
 	"strings"
 	"sync"
@@ -48,6 +50,8 @@ type script struct {
 type world struct {
 	gw        *e2e.Gateway
 	infos     []*clusters.ClusterInfo  // every cluster of the world (for isolate)
+	h2        *httptest.Server // the SAME handler chain behind TLS + HTTP/2 (h2.go)
+	h2client  *http.Client
 	ups       map[string]*e2e.Upstream // cluster -> its upstream
 	mu        sync.Mutex
 	scripts   map[string]*script
@@ -202,10 +206,15 @@ func newWorld() (*world, error) {
 	} else {
 		w.infos = append(w.infos, ci)
 	}
+	w.startH2()
 	return w, nil
 }
 
 func (w *world) close() {
+	if w.h2 != nil {
+		w.h2client.CloseIdleConnections()
+		w.h2.Close()
+	}
 	w.gw.Close()
 	for _, u := range w.ups {
 		u.Close()
